@@ -4,15 +4,22 @@
 From Coq Require Import NArith Arith List Lia Bool.
 From BU Require Import Base.Exn Base.Bytes Gen.Bech32Consts Model.Bech32Bits Model.Bech32Str Model.Bech32
   Lemmas.Bech32Bits Lemmas.Bech32Str Lemmas.Bech32Poly Lemmas.Bech32ConstsOk Lemmas.Bech32Code Lemmas.Bech32
-  Lemmas.Bech32Detect Lemmas.Bech32CertB32.
+  Lemmas.Bech32Detect Lemmas.Bech32CertB32 Lemmas.Bech32CertX.
 Import ListNotations.
 Open Scope N_scope.
 
 (* a corrupted copy: same prefix up to and including the (last) separator, data parts of equal length
    at most [maxlen] differing in 1..4 positions; everything read after lower-casing, as the decoders do *)
-Definition data_corrupted (sep : N) (maxlen : nat) (s1 s2 : list N) : Prop :=
+Definition data_corrupted_n (k : nat) (sep : N) (maxlen : nat) (s1 s2 : list N) : Prop :=
   exists h t1 t2, py_lower s1 = h ++ sep :: t1 /\ py_lower s2 = h ++ sep :: t2 /\ ~ In sep t1 /\
-    length t1 = length t2 /\ (length t1 <= maxlen)%nat /\ (1 <= hamming t1 t2 <= 4)%nat.
+    length t1 = length t2 /\ (length t1 <= maxlen)%nat /\ (1 <= hamming t1 t2 <= k)%nat.
+Definition data_corrupted := data_corrupted_n 4.
+
+Lemma data_corrupted_weaken k k' sep n s1 s2 : (k <= k')%nat ->
+  data_corrupted_n k sep n s1 s2 -> data_corrupted_n k' sep n s1 s2.
+Proof.
+  intros Hk (h & t1 & t2 & E1 & E2 & Hs & Hl & HL & Hh). exists h, t1, t2. repeat split; auto; lia.
+Qed.
 
 Lemma split_at_last (c : N) a b a' b' : a ++ c :: b = a' ++ c :: b' -> ~ In c b -> ~ In c b' -> a = a' /\ b = b'.
 Proof.
@@ -84,6 +91,50 @@ Proof.
   rewrite (b32_verify_detects (segwit_const v1) hrp (v1 :: r1) (v2 :: r2) Hlen HL S1 S2 Hh V1) in V2. discriminate.
 Qed.
 
+(* up to three substitutions are detected unconditionally: neither within one checksum constant (above) nor
+   across the two (coset certificate) *)
+Lemma segwit_data_len72 rest prog : from_base32 5 8 (drop_last segwit_cklen rest) = Ok prog ->
+  (segwit_cklen <= length rest)%nat -> (length prog <= segwit_prog_max)%nat -> (S (length rest) <= segwit_window)%nat.
+Proof.
+  intros F Hl Hp. apply from_base32_length in F. destruct F as [F _]. rewrite drop_last_length in F.
+  change segwit_prog_max with 40%nat in Hp. change segwit_cklen with 6%nat in *. unfold segwit_window.
+  set (n := (length rest - 6)%nat) in *. assert (length rest = n + 6)%nat by lia.
+  assert (n <= 65)%nat; [|lia]. destruct (le_lt_dec n 65) as [|Hgt]; [assumption|exfalso].
+  assert (41 <= 5 * n / 8)%nat by (apply Nat.div_le_lower_bound; lia). lia.
+Qed.
+
+Theorem segwit_detects_3 hrp s1 s2 v1 p1 n : segwit_decode hrp s1 = Ok (v1, p1) ->
+  data_corrupted_n 3 segwit_sep n s1 s2 -> forall p2, segwit_decode hrp s2 <> Ok p2.
+Proof.
+  intros D1 C [v2 p2] D2.
+  destruct (Bool.bool_dec (v1 =? 0) (v2 =? 0)) as [Hv|Hv].
+  - exact (segwit_detects_4 hrp s1 s2 v1 p1 v2 p2 n D1 (data_corrupted_weaken 3 4 _ _ _ _ ltac:(lia) C) D2 Hv).
+  - destruct C as (h & t1 & t2 & E1 & E2 & Hsep & Hlen & _ & Hh).
+    apply segwit_decode_ok_iff in D1. destruct D1 as (_ & _ & r1 & L1 & S1 & Hl1 & V1 & F1 & (Hp1 & _)).
+    apply segwit_decode_ok_iff in D2. destruct D2 as (_ & _ & r2 & L2 & S2 & _ & V2 & _).
+    assert (Hs : ~ In segwit_sep bech32_charset) by (apply (sep_stable segwit_sep); right; left; reflexivity).
+    rewrite L1 in E1. apply split_at_last in E1; [|apply (sep_not_in_syms bech32_charset segwit_sep Hs); exact S1|exact Hsep].
+    destruct E1 as [<- <-]. rewrite L2 in E2. apply app_inv_head in E2.
+    assert (E2' : t2 = map bsym (v2 :: r2)) by (inversion E2; reflexivity). subst t2.
+    rewrite !map_length in *. rewrite hamming_bsym in Hh by assumption.
+    assert (HL : (length (v1 :: r1) <= segwit_window)%nat) by (cbn [length]; eapply segwit_data_len72; eauto; apply Hp1).
+    unfold b32_verify_checksum in V1, V2. apply N.eqb_eq in V1, V2.
+    rewrite b32_polymod_eq in V1, V2. unfold polymod_raw in V1, V2. rewrite pm_app in V1, V2.
+    refine (certificateX_sound b32_gens bech32_pm_shift bech32_pm_symbits b32_coset_diff segwit_window
+              b32_coset_certificate _ (v1 :: r1) (v2 :: r2) Hlen HL S1 S2 Hh _).
+    rewrite V1, V2. unfold segwit_const, b32_coset_diff. change segwit_ver_bech32 with 0.
+    destruct (v1 =? 0), (v2 =? 0); try (exfalso; apply Hv; reflexivity); [reflexivity|apply N.lxor_comm].
+Qed.
+
+Corollary segwit_detects_3_err hrp s1 s2 v1 p1 n : segwit_decode hrp s1 = Ok (v1, p1) ->
+  data_corrupted_n 3 segwit_sep n s1 s2 ->
+  exists e, segwit_decode hrp s2 = Err e /\ (e = ValueError \/ e = LibError Bech32ChecksumError).
+Proof.
+  intros D1 C. destruct (segwit_decode hrp s2) as [p2|e] eqn:D2.
+  - exfalso. exact (segwit_detects_3 hrp s1 s2 v1 p1 n D1 C p2 D2).
+  - exists e. split; [reflexivity|]. eapply segwit_decode_err; eauto.
+Qed.
+
 Lemma not_in_memb c l : memb c l = false -> ~ In c l.
 Proof. intros H I. apply memb_In in I. congruence. Qed.
 
@@ -147,6 +198,17 @@ Lemma detects_example : exists p1,
 Proof.
   eexists. split; [vm_compute; reflexivity|].
   exists [98; 99], [112; 99; 113; 113; 102; 101; 122; 120; 107; 101], [112; 99; 113; 113; 102; 101; 122; 120; 107; 113].
+  split; [vm_compute; reflexivity|]. split; [vm_compute; reflexivity|].
+  split; [apply not_in_memb; vm_compute; reflexivity|]. split; [reflexivity|].
+  split; [vm_compute; repeat constructor|]. vm_compute. split; repeat constructor.
+Qed.
+
+(* premises of segwit_detects_3 are satisfiable: the P2WPKH address above with its last character replaced *)
+Lemma segwit_detects_example : exists p1 s2 n,
+  segwit_decode [98; 99] cross_s1 = Ok (0, p1) /\ data_corrupted_n 3 segwit_sep n cross_s1 s2.
+Proof.
+  eexists. exists (firstn 41 cross_s1 ++ [113]), 39%nat. split; [vm_compute; reflexivity|].
+  exists [98; 99], (skipn 3 cross_s1), (skipn 3 (firstn 41 cross_s1 ++ [113])).
   split; [vm_compute; reflexivity|]. split; [vm_compute; reflexivity|].
   split; [apply not_in_memb; vm_compute; reflexivity|]. split; [reflexivity|].
   split; [vm_compute; repeat constructor|]. vm_compute. split; repeat constructor.
